@@ -79,6 +79,8 @@ def panel():
             h = _h(k, j)
             pres = {"quat": ROT[h % len(ROT)], "trans": [((h >> 8) % 1000) / 100.0 - 5.0, ((h >> 20) % 1000) / 100.0 - 5.0, ((h >> 32) % 1000) / 100.0 - 5.0],
                     "perm": (h >> 4) % (2 ** 32), "noise_seed": 0, "sbc_seed": 0}
+            if j == 1:
+                pres["payload"] = (h >> 3) % (2 ** 32)      # second presentation: FixAtoms on a subset, tags, magmoms, charges attached
             item = {"combo": c, "pres": pres, "ads_seed": _h(k, "ads%d" % j) % (2 ** 32), "panel_index": j}
             if j == 2:
                 item["wrap_frac"] = 0.35 + ((h >> 40) % 30) / 100.0      # 0.35 .. 0.64 of the cell height
